@@ -30,17 +30,23 @@ XT = 1e-9
 
 
 def floors(tier):
-    return {"splits_checked": 300, "zero_iteration_restarts": 300, "next_iterate_compared": 250, "chains_checked": 150,
-            "reduced_maxcor_checked": 100, "splits_with_2plus_pairs": 150, "__nontrivial__": 120}
+    return {"splits_checked": 700, "zero_iteration_restarts": 700, "next_iterate_compared": 600, "chains_checked": 350,
+            "reduced_maxcor_checked": 250, "splits_with_2plus_pairs": 350, "splits_right_after_a_rejected_pair": 25, "__nontrivial__": 250}
 
 
 def cases(tier, seed):
     rng = np.random.default_rng(subseed("C06", seed))
-    nprob = 160 if tier == "quick" else 5000
+    nprob = 360 if tier == "quick" else 8000
     for i in range(nprob):
         ps = gen.rand_spec(rng, FAMS, nmax=8, nmin=2, boxes=("none", "mixed", "boxed", "lower", "upper"),
                            starts=("interior", "face", "vertex", "outward"), condmax=1e3)
-        yield {"problem": ps, "maxcor": int(rng.integers(1, 8)), "K": int(rng.integers(4, 13)), "maxls": int(gen.pick(rng, [5, 20, 20])),
+        hard = i % 3 == 2
+        if hard:
+            # starved line searches / a demanding curvature test on non-convex objectives: splits right after a rejected pair
+            ps = gen.rand_spec(rng, ("rosenbrock", "beale", "styblinski_tang", "rastrigin", "griewank", "ackley"), nmax=6, nmin=2,
+                               boxes=("mixed", "boxed", "boxed", "lower", "upper", "none"), starts=("interior", "face", "vertex"))
+        yield {"problem": ps, "maxcor": int(rng.integers(1, 8)), "K": int(rng.integers(4, 13)), "maxls": int(gen.pick(rng, [1, 2, 3, 3] if hard else [5, 20, 20])),
+               "eps_SY": float(gen.pick(rng, [2.2e-16, 1e-3, 1e-2, 0.1])) if hard else 2.2e-16,
                "long_chain": bool(rng.random() < 0.25), "eps": float(gen.pick(rng, [1e-8, 1e-8, 1e-3, 1e-1])),
                "jac": gen.pick(rng, ["callable", "callable", "callable", None, "2-point"]),
                "maxfun": int(gen.pick(rng, [100000, 100000, 60, 120, 250]))}
@@ -110,7 +116,7 @@ def run(spec):
     out = Outcome()
     P = gen.make_problem(spec["problem"])
     base = dict(jac=spec.get("jac", "callable"), maxcor=spec["maxcor"], maxls=spec["maxls"], ftol=0.0, gtol=1e-12,
-                maxfun=spec.get("maxfun", 100000), eps=spec.get("eps", 1e-8), x0_same_object=True)
+                maxfun=spec.get("maxfun", 100000), eps=spec.get("eps", 1e-8), eps_SY=spec.get("eps_SY", 2.2e-16), x0_same_object=True)
     XT = 1e-9
     if base["jac"] != "callable":
         out.count("finite_difference_problems")
@@ -145,6 +151,8 @@ def run(spec):
         where = f"{P.spec['family']} n={P.n} maxcor={spec['maxcor']} split k={k} ({npairs} pairs)"
         if npairs >= 2:
             out.count("splits_with_2plus_pairs")
+        if k >= 2 and npairs >= 1 and not last_update_accepted(full, k, P):
+            out.count("splits_right_after_a_rejected_pair")
         # (a) zero-iteration restart
         z = restart(ck, k)
         out.count("zero_iteration_restarts")
